@@ -5,7 +5,8 @@
    reset f p    reset(), incl. Pattern.reset's walk over the attributes;  rpat p  the proved fragment: any nesting
    of the 15 operators, &, abs, int, skip-if, references, PStutter, PCounter, PPad, PPadToMultiple, PSeries, PRange, PGeom,
    PImpulse, PLoop, PPingPong, PReverse, PSubsequence, PCollapse, PNoRepeats, PChanged, PDiff, PWrap (parameters scalars
-   or again patterns of the fragment) over PSequence (scalar items) and constants/scalars.  binop (operator semantics) is arbitrary; f, f' are recursion fuels. *)
+   or again patterns of the fragment) over PSequence (scalar items) and constants/scalars; PReset(p, trigger) for p a
+   PSequence / PSeries / PRange / PGeom / PImpulse with scalar parameters (`flat`) and any trigger of the fragment.  binop (operator semantics) is arbitrary; f, f' are recursion fuels. *)
 From Isobar Require Import Base.Prelude Pat.Val Pat.Syntax Pat.Step Pat.StepProofs Pat.IterProofs Pat.ResetProofs.
 From Coq Require Import String QArith.
 Open Scope Z_scope.
@@ -58,7 +59,8 @@ Section AnyOperators.
     all_ binop LMAX f m p = (Yield vs, p'').
   Proof. exact (all_is_nextn_then_reset binop LMAX). Qed.
 
-  (* remaining classes (PReset PRound PIndexOf PArrayIndex PDict PDictKey PConcatenate, PSequence with pattern items,
+  (* remaining classes (PReset over a nested pattern - needs reset (reset p) = reset p for the whole fragment, jointly with
+     closure -, PRound PIndexOf PArrayIndex PDict PDictKey PConcatenate, PSequence with pattern items,
      list- / tuple- / dict-valued parameters): full statement
        forall f f' p, fragment p -> reset f (snd (step f' p)) = reset f p ;
      proved here: the leaf case; C04_reset_erases_step has every other modelled class; the rest is validated by the
@@ -105,4 +107,17 @@ Proof.
   split.
   - apply RP_loop, RA_pat, RP_collapse, RA_pat, RP_subsequence; [apply RA_pat, RP_series; apply RA_val|apply RA_val|apply RA_val].
   - split; [vm_compute; reflexivity|]. split; [vm_compute; discriminate|]. split; vm_compute; reflexivity.
+Qed.
+
+(* non-vacuity for PReset: the trigger restarts the series in the middle, reset() rewinds both *)
+Definition ex_p2 : pat :=
+  PReset (AP (PSeries (VInt 0) (VInt 0) (AV (VInt 1)) (AV (VInt 9)) 0)) (AP (seq_ [0; 0; 0; 1; 0] 1)).
+
+Example C04_preset_nonvacuous :
+  rpat ex_p2 /\ reset Val.binop 100 30 ex_p2 = Yield ex_p2 /\
+  reset Val.binop 100 30 (run Val.binop 100 30 4 ex_p2) = Yield ex_p2 /\
+  fst (outputs Val.binop 100 30 6 ex_p2) = [Yield (VInt 0); Yield (VInt 1); Yield (VInt 2); Yield (VInt 0); Yield (VInt 1); Stop].
+Proof.
+  split; [apply RP_reset; [reflexivity|apply RA_pat, RP_leaf; reflexivity]|].
+  split; [vm_compute; reflexivity|]. split; vm_compute; reflexivity.
 Qed.
